@@ -28,9 +28,22 @@ func TestVP_C08_stream_roundtrip(t *testing.T) {
 		kit.Inconclusive(t, "loopback QUIC pair: %v", err)
 		return
 	}
-	defer pair.close()
-	troubles := 0
+	defer func() { pair.close() }()
+	troubles, cases := 0, 0
+	renew := false
 	rapid.Check(t, func(t *rapid.T) {
+		cases++
+		if renew {
+			// the connection of a case that ended in transport trouble may be out
+			// of step (half-read frame): continue on a fresh one
+			pair.close()
+			np, nerr := vpC31NewPair()
+			if nerr != nil {
+				troubles++
+				t.Skipf("new loopback pair: %v", nerr)
+			}
+			pair, renew = np, false
+		}
 		n := rapid.IntRange(2, 6).Draw(t, "messages")
 		dir := rapid.IntRange(0, 1).Draw(t, "dir")
 		src, dst := pair.ends(dir)
@@ -60,11 +73,13 @@ func TestVP_C08_stream_roundtrip(t *testing.T) {
 			}
 			if terr := src.Send(b.data); terr != nil {
 				troubles++
+				renew = true
 				t.Skipf("send: %v", terr)
 			}
 			r, rerr := vpC31Recv(dst, TransportMessageMaxSize)
 			if rerr != nil || r.err != nil || r.msg == nil {
 				troubles++
+				renew = true
 				t.Skipf("receive: %v %v", rerr, r)
 			}
 			if !bytes.Equal(r.msg.Data, b.data) {
@@ -104,7 +119,7 @@ func TestVP_C08_stream_roundtrip(t *testing.T) {
 		}
 	})
 	c.Set("transport_troubles", troubles)
-	if troubles > 5 {
-		kit.Inconclusive(t, "%d transport troubles on loopback", troubles)
+	if troubles > 5 && troubles*10 > cases {
+		kit.Inconclusive(t, "%d transport troubles on loopback in %d cases", troubles, cases)
 	}
 }
